@@ -152,18 +152,29 @@ def make_texts(case):
             "lead": srng.choice(LEAD_CTX) if srng.random() < 0.3 else "",
             "tail": srng.choice(TAIL_CTX) if srng.random() < 0.3 else "",
             "eol": "\n",
+            # the value space is "all printable non-space ASCII": now and then a text secret is very short, starts
+            # with '$', repeats a piece of its own line's keywords, or equals the user name standing next to it
+            "special": srng.choice([None] * 7 + ["short", "dollar-word", "ctxsub", "recur-user"]),
+            "sp_seed": srng.getrandbits(32),
         })
     md5len = {}
     ctx_pad = [0]
     texts, vals = [], []
-    for vseed in (case["v1"], case["v2"]):
+    for vi, vseed in enumerate((case["v1"], case["v2"])):
         vr = random.Random(vseed)
         secrets = {}
         lines_out = []
         for ln, st in zip(spec, struct):
             form = S.BY_ID[ln["form"]]
             slot_texts = []
+            ufill = None
             for k, (sid, cls) in enumerate(zip(ln["ids"], ln["cls"])):
+                if sid not in secrets and cls == "text" and st["special"] and not case.get("straddle"):
+                    sp = _special_text(st, form, vi, vr, {x["text"] for x in secrets.values() if x.get("text")})
+                    if sp is not None:
+                        secrets[sid] = sp
+                if st["special"] == "recur-user" and "{u}" in form["tpl"]:
+                    ufill = {("u", form["tpl"].index("{u}")): _uword(st)}
                 if sid not in secrets:
                     if cls == "md5":
                         # md5 salt length is part of the format class: fixed per id across valuations
@@ -182,7 +193,7 @@ def make_texts(case):
                     txt = sec["text"]
                 slot_texts.append(txt)
             line, parts, _ = S.render(random.Random(st["fillseed"]), form, slot_texts, indent=st["indent"],
-                                      quote=tuple(st["quote"]), trail=st["trail"] if not case.get("straddle") else "")
+                                      quote=tuple(st["quote"]), trail=st["trail"] if not case.get("straddle") else "", fill=ufill)
             if (st["lead"] or st["tail"]) and not case.get("straddle") and form["quote"]:
                 ind = len(line) - len(line.lstrip())
                 line = line[:ind] + st["lead"] + line[ind:] + st["tail"]
@@ -201,6 +212,45 @@ def make_texts(case):
         texts.append("".join(lines_out))
         vals.append(secrets)
     return texts, vals, [st["trail"] for st in struct]
+
+
+_ALNUM = "abcdefghijklmnopqrstuvwxyzABCDEFGHIJKLMNOPQRSTUVWXYZ0123456789"
+
+
+def _uword(st):
+    r = random.Random(st["sp_seed"])
+    return r.choice(S._NONHEX) + "".join(r.choice(_ALNUM) for _ in range(r.randint(5, 9))) + r.choice(S._NONHEX)
+
+
+def _special_text(st, form, vi, vr, used):
+    """An unusual but legitimate clear-text value for valuation vi (None: draw an ordinary one).  Both valuations stay
+    in format class "text" (a letter outside a-f), never a reserved word, never equal to another secret of the document."""
+    kind = st["special"]
+    res = load.nc().rw.default_reserved_words
+    r = random.Random("%s-%d" % (st["sp_seed"], vi))
+    t = None
+    if kind == "dollar-word" and not form["plain"]:
+        t = "$" + r.choice(S._NONHEX) + "".join(r.choice(_ALNUM + "_") for _ in range(r.randint(5, 12)))
+        cores = [t]
+    elif kind == "short":
+        t = r.choice(S._NONHEX) + "".join(r.choice(_ALNUM) for _ in range(r.randint(0, 3)))
+        cores = []
+    elif kind == "ctxsub":
+        n = random.Random(st["sp_seed"]).randint(2, 4)
+        if vi == 0:
+            lits = re.sub(r"\{\w+\}", " ", form["tpl"])
+            cands = sorted({lits[i:i + n] for i in range(len(lits) - n + 1)})
+            cands = [c for c in cands if re.fullmatch(r"[A-Za-z0-9]+", c) and re.search(r"[g-zG-Z]", c)]
+            t = r.choice(cands) if cands else None
+        else:
+            t = r.choice(S._NONHEX) + "".join(r.choice(_ALNUM) for _ in range(n - 1))
+        cores = []
+    elif kind == "recur-user" and "{u}" in form["tpl"]:
+        t = _uword(st) if vi == 0 else None
+        cores = []
+    if t is None or t in res or t.lower() in res or t in used or re.search(r"(?i)password|secret|key|community", t):
+        return None
+    return {"cls": "text", "text": t, "cores": cores, "sub": kind}
 
 
 def cores_of(secrets):
